@@ -150,9 +150,21 @@ def inline_pure(F, t, depth=1, only=None):
                     return a
             return None
         return effects.rebuild(rs[0].ret, g)
+    def fold(n):
+        # field of a literal that an inlined helper returned: `helper(x).field`
+        if n and n[0] == 'proj' and isinstance(n[1], tuple) and n[1] and n[1][0] == 'agg' and isinstance(n[2], tuple) and n[2] and n[2][0] == 'f':
+            vals, names = n[1][2], (n[1][3] if len(n[1]) > 3 else None)
+            if names and n[2][1] in names:
+                return vals[list(names).index(n[2][1])]
+            if not names and str(n[2][1]).isdigit() and int(n[2][1]) < len(vals):
+                return vals[int(n[2][1])]
+        # `*(&place)` where the reference came out of an inlined helper
+        if n and n[0] == 'proj' and n[2] == 'deref' and isinstance(n[1], tuple) and n[1] and n[1][0] == 'ref' and isinstance(n[1][1], tuple):
+            return ('in', tuple(n[1][1]))
+        return None
     out = t
     for _ in range(depth):
-        out = effects.rebuild(out, f)
+        out = effects.rebuild(effects.rebuild(out, f), fold)
     return out
 
 
